@@ -98,6 +98,15 @@ func (b *tagBackend) allReleased() bool {
 	return b.eofs >= b.accepts
 }
 
+// hangUp: the host ends its connections; the listener stays.
+func (b *tagBackend) hangUp() {
+	b.mu.Lock()
+	for _, c := range b.conns {
+		c.Close()
+	}
+	b.mu.Unlock()
+}
+
 func (b *tagBackend) close() {
 	b.l.Close()
 	b.mu.Lock()
